@@ -12,10 +12,14 @@ def run(res, pool, tier, seed):
     sd = seed % 1000
     if tier == "quick":
         jobs = [dict(module="MC_FlatBody.tla", tag="catalogue", invariants=INVS, timeout=1200,
-                     constants=dict(S=2, BODIES=set(POLYH + POLYG), KF=set(FLAT), SEED=sd, NSHARD=60, NXCHECK=8))]
+                     constants=dict(GENK=set(), NGEN=1, S=2, BODIES=set(POLYH + POLYG), KF=set(FLAT), SEED=sd, NSHARD=60, NXCHECK=8)),
+                dict(module="MC_FlatBody.tla", tag="general-hulls", invariants=INVS, timeout=1200,
+                     constants=dict(GENK={5}, NGEN=16000, S=2, BODIES=set(), KF=set(FLAT), SEED=sd, NSHARD=90, NXCHECK=8))]
     else:
         jobs = [dict(module="MC_FlatBody.tla", tag="catalogue", invariants=INVS, timeout=7200,
-                     constants=dict(S=2, BODIES=set(POLYH + POLYG), KF=set(FLAT), SEED=sd, NSHARD=4, NXCHECK=16))]
+                     constants=dict(GENK=set(), NGEN=1, S=2, BODIES=set(POLYH + POLYG), KF=set(FLAT), SEED=sd, NSHARD=4, NXCHECK=16)),
+                dict(module="MC_FlatBody.tla", tag="general-hulls", invariants=INVS, timeout=7200,
+                     constants=dict(GENK={4, 5, 6}, NGEN=2500, S=2, BODIES=set(), KF=set(FLAT), SEED=sd, NSHARD=12, NXCHECK=16))]
     engine.run_jobs(res, jobs, pool)
     import traces
     traces.run_for(res, ["unit_tests", "driver"] if tier != "quick" else ["unit_tests"], {"C02"}, seed=seed + 1, nsessions=2500)
